@@ -251,5 +251,5 @@ def rule_o4(ctx):
 
 
 def run(ctx):
-    rule_o1(ctx)
-    rule_o4(ctx)
+    ctx.guard(rule_o1)
+    ctx.guard(rule_o4)
